@@ -70,3 +70,40 @@ PROPS['C03'] = {
     'level_note': 'An out-of-memory report from Init is accepted only when the map cannot hold a generous upper bound of the allocator state.',
     'assumptions': PMM_ASSUME + ['frees of kernel-image or early-consumed frames are not generated (unspecified)'],
 }
+
+PROPS['C08'] = {
+    'pkg': K + '/sync',
+    'tests': [
+        {'name': 'TestVerifC08', 'checks_quick': 3000, 'checks_thorough': 60000, 'shards_quick': 4, 'shards_thorough': 8},
+        {'name': 'TestVerifC08Stress', 'checks_quick': 60, 'checks_thorough': 1500, 'shards_quick': 1, 'shards_thorough': 1},
+    ],
+    'rule': '(1) rapid generates a linear history of (worker, acquire|try|release) executed by hand-shake on per-worker '
+            'goroutines and compared with an exact model (holder, set of blocked workers): try returns true iff free, an '
+            'Acquire issued while held must not return before a Release, exactly one waiter gets in per Release. '
+            'Non-trivial = >=1 Acquire issued while the lock was held. (2) generated per-worker programs (2-16 workers, '
+            'critical-section lengths, try percentage) run freely on all cores; holders counter, non-atomic counter and a '
+            '4-word record must stay consistent. Non-trivial = measured contention (failed tries or acquire attempts that '
+            'saw the lock held) > 0. distinct = hash of the JSON case.',
+    'technique': 'rapid model-based sequential histories + generated parallel stress with in-critical-section invariants',
+    'level_text': 'The sequential specification of Acquire/TryToAcquire/Release is decided exactly under a harness-owned schedule; mutual exclusion and visibility under true parallelism are sampled over generated programs with measured contention. Schedules are sampled, not enumerated.',
+    'level_note': 'yieldFn is set to runtime.Gosched (as the repository test does); x86-TSO hides memory-ordering defects; a defect needing one rare interleaving of two instructions can be missed.',
+    'assumptions': ['blocked = did not return within 300us while the model says the lock is held (delay can only hide a defect, never fake one)',
+                    'an Acquire that should proceed is given 5s'],
+    'timeout_quick': 240,
+}
+
+PROPS['C09'] = {
+    'pkg': K + '/mm/pmm',
+    'tests': [{'name': 'TestVerifC09', 'checks_quick': 3000, 'checks_thorough': 12000, 'shards_quick': 2, 'shards_thorough': 4}],
+    'rule': 'rapid generates 1-3 pools of 1-130 frames (initialised through the real pmm.Init) and 2-16 worker programs '
+            '(iterations, alloc percentage, bogus-free percentage, hold limit, salt) that run truly in parallel; an '
+            'ownership table updated with atomic swap detects a frame held twice; afterwards reserved totals, per-pool '
+            'free counters vs. bitmap bits and an exhaustive drain are checked; a progress watchdog detects blocked calls; '
+            'deterministic probes check that every return path releases the lock and that both calls wait for it. '
+            'Non-trivial = >=4 workers, out-of-memory hit at least once and measured lock contention > 0.',
+    'technique': 'rapid-generated parallel workloads with ownership-table invariant, quiescent-state accounting and deterministic lock-discipline probes',
+    'level_text': 'Sampled truly-parallel schedules on 16 cores with small pools (constant collisions, regular out-of-memory) plus exact, schedule-independent lock-discipline probes on all five return paths. Schedules are sampled, not enumerated.',
+    'level_note': 'The spinlock yields through runtime.Gosched via a verif-only export shim; "blocks forever" = no call completes for 8s, reproduced by forcing the lock free.',
+    'assumptions': PMM_ASSUME + ['double frees are exercised only in the sequential lock-discipline probe (a concurrent double free may legitimately free a frame re-allocated to someone else)'],
+    'timeout_quick': 300,
+}
